@@ -9,5 +9,5 @@ else (cd $a/b && patch -p1 -s --fuzz=3 -i /verif/seeded/$n/patch.diff) || { echo
 find $a/b -name '*.orig' -delete; find $a/b -name '*.rej' -delete
 (cd $a && diff -ruN a b | sed 's#^--- a/#--- a/#; s#^+++ b/#+++ b/#' > seed/patch.diff)
 for f in /verif/seeded/$n/*; do case $(basename $f) in patch*.diff|meta.json) ;; *) cp -r $f $a/seed/ ;; esac; done
-python3 /verif/tools/tryseed.py $a/seed $prop $label 2>&1 | tail -n 6
+python3 /verif/tools/tryseed.py $a/seed $prop $label > $a/out.txt 2>&1; grep -E "\"(demo_on_clean_tree|builds|existing_tests_with_change|demo_with_change|confirmed|caught_by_own_property_check)\"" $a/out.txt | cut -c1-160
 rm -rf $a
